@@ -29,10 +29,10 @@ theorem C17_line_lookup (content : List UInt8) (offset : Nat) : lineImpl content
 
 /-- the HTML returned alongside the error is the HTML the document yields anyway -/
 theorem C17_html_unchanged (w w' : Gomjml.Api.World) (s : Gomjml.Api.St) (d : Gomjml.Api.Doc) (hp : w.parse d = .ok ())
-    (hsame : w'.parse = w.parse ∧ w'.attrs = w.attrs ∧ w'.html = w.html ∧ w'.reorder = w.reorder) (e : Gomjml.Api.Err)
-    (hv : w.validation d = some e) (hv' : w'.validation d = none) :
+    (hsame : w'.parse = w.parse ∧ w'.attrs = w.attrs ∧ w'.html = w.html ∧ w'.reorder = w.reorder ∧ w'.renderErr = w.renderErr)
+    (e : Gomjml.Api.Err) (hr : w.renderErr d = none) (hv : w.validation d = some e) (hv' : w'.validation d = none) :
     ∃ html, (Gomjml.Api.step w s (.render d)).2 = .okValidation html e ∧ (Gomjml.Api.step w' s (.render d)).2 = .ok html :=
-  Gomjml.Api.validation_keeps_html w w' s d hp hsame e hv hv'
+  Gomjml.Api.validation_keeps_html w w' s d hp hsame e hr hv hv'
 
 /-- non-vacuity: one accepted, one always-accepted and one offending attribute on a real table -/
 def N0 : Names := ⟨fun a => a == "data-x", fun _ => false⟩
